@@ -480,6 +480,10 @@ theorem cpRead_iso (w : W) (c : Cli) (e : Option FdEnv) :
         · exact ⟨_, CliIso.sysOnly w c _ _ rfl rfl rfl (fun h => h) rfl (Or.inl ⟨[], by simp⟩), by simp [isWrite]⟩
   · exact ⟨[], CliIso.refl w c, by simp⟩
 
+/-- the capacity half of `_handle_read` changes the input buffer and its size only -/
+theorem clipC_iso (w : W) (c : Cli) (e : Option FdEnv) : CliIso w c (w, clipC c e) [] :=
+  CliIso.record w c _ (by simp) (by simp) (fun h => by simpa using h) (by simp) ⟨[], by simp⟩
+
 /-! ### `_parse_input`, branch by branch -/
 
 theorem plFin_iso (w : W) (c : Cli) (b : Bytes) : CliIso w c (ClientPf.plFin w c b) [] :=
@@ -578,6 +582,8 @@ theorem parseLine_iso (w : W) (c : Cli) (line : Bytes) :
     ∃ ext, CliIso w c (parseLine w c line) ext ∧ WQ (parseLine w c line) ext := by
   rw [ClientPf.parseLine_eq]; unfold ClientPf.parseLine'
   split
+  · exact ⟨_, plFin_iso .., WQ.nil _⟩
+  split
   · exact ⟨[], CliIso.record w c _ rfl rfl (fun h => h) rfl ⟨_, rfl⟩, WQ.nil _⟩
   · rename_i h
     exact plIdle_iso w c _ (by simpa using h)
@@ -673,12 +679,13 @@ theorem clientPass_iso (w : W) (c : Cli) (e : Option FdEnv) :
   dsimp only
   split
   · exact ⟨_, cpDead_iso w c, fun _ c' h => by simp [ClientPf.cpDead] at h⟩
-  · obtain ⟨e1, h1, n1⟩ : ∃ ext, CliIso w c (if (ClientPf.cpRev c e &&& 1 != 0 || ClientPf.cpRev c e &&& 4 != 0) = true then ClientPf.cpRead w c e else (w, c)) ext ∧
+  · obtain ⟨e1, h1, n1⟩ : ∃ ext, CliIso w c (if (ClientPf.cpRev c e &&& 1 != 0 || ClientPf.cpRev c e &&& 4 != 0) = true then ClientPf.cpRead w (clipC c e) (clipE c e) else (w, c)) ext ∧
         ∀ s ∈ ext, isWrite s = false := by
       split
-      · exact cpRead_iso w c e
+      · obtain ⟨ext, h, n⟩ := cpRead_iso w (clipC c e) (clipE c e)
+        exact ⟨[] ++ ext, (clipC_iso w c e).trans h, by simpa using n⟩
       · exact ⟨[], CliIso.refl w c, by simp⟩
-    generalize (if (ClientPf.cpRev c e &&& 1 != 0 || ClientPf.cpRev c e &&& 4 != 0) = true then ClientPf.cpRead w c e else (w, c)) = r1 at h1 ⊢
+    generalize (if (ClientPf.cpRev c e &&& 1 != 0 || ClientPf.cpRev c e &&& 4 != 0) = true then ClientPf.cpRead w (clipC c e) (clipE c e) else (w, c)) = r1 at h1 ⊢
     obtain ⟨e2, h2, n2⟩ : ∃ ext, CliIso w c (if (ClientPf.cpRev c e &&& 2 != 0) = true then handleWrite r1.1 r1.2 else r1) ext ∧
         (ClientPf.cpRev c e &&& 2 = 0 → ∀ s ∈ ext, isWrite s = false) := by
       split
